@@ -1,5 +1,5 @@
 (* C18 - Diagnostics never disclose credentials. *)
-From MQ Require Import Model.Render Proofs.BytesP Proofs.RenderP Model.AccIR Model.DumpIR Proofs.DumpP gen.GenAcc gen.SyncAcc gen.GenDump gen.SyncDump.
+From MQ Require Import Model.Render Proofs.BytesP Proofs.RenderP Model.AccIR Model.DumpIR Proofs.DumpP gen.GenAcc gen.SyncAcc gen.GenDump gen.SyncDump Model.StringIR Proofs.StringP gen.GenString gen.SyncString.
 From Coq Require Import List. Import ListNotations. Open Scope N_scope.
 
 (* cred_rel p p': every field, list and the will of the two CONNECT
@@ -52,3 +52,17 @@ Proof.
         (conj sync_acc_rtypes run_dump_is_dump_toks)))).
 Qed.
 Print Assumptions C18_dump_is_the_source.
+
+(* string_toks is the String method of the source for the fourteen packet
+   types whose String is `return [withForm(p, | withReason(p, ]
+   fmt.Sprintf(format, args...) [)]`: tools/gosync (acc.go) translates the
+   format string and each argument (first byte, flag renderings, fields,
+   accessors, the keep-alive duration, the size from the dry run, the reason
+   code's name, the filter text) into an item list; the regenerated lists are
+   those of Model/StringIR.v (gen/SyncString.v) and their interpretation is
+   string_toks (PUBLISH, which builds its topic text first, and Undefined
+   remain hand-modelled and fingerprinted). *)
+Theorem C18_string_is_the_source : forall k p, string_ir k <> None ->
+  run_string_of k p = string_toks k p.
+Proof. exact run_string_is_string_toks. Qed.
+Print Assumptions C18_string_is_the_source.
